@@ -1,5 +1,9 @@
-"""Property id -> check function."""
+"""Property id -> check function; family -> replay function."""
 import fam_expander
+import fam_urls
 
 CHECKS = {}
-CHECKS.update(fam_expander.CHECKS)
+REPLAY = {}
+for m in (fam_expander, fam_urls):
+    CHECKS.update(m.CHECKS)
+    REPLAY.update(getattr(m, 'REPLAY', {}))
